@@ -56,6 +56,7 @@ type Node struct {
 	Headers  [][3]string
 	Boundary []*Node // boundary events attached to this activity (Kind Catch, with Interrupting flag)
 	Retries  string
+	Timeout  string // olive:taskDefinition timeout (a Go duration)
 	// events
 	Defs         []EventDef
 	ParallelMult bool
@@ -214,10 +215,17 @@ func (g *Graph) writeBody(b *strings.Builder, ind string) {
 			attrs += " parallelMultiple=\"true\""
 		}
 		fmt.Fprintf(b, "%s<bpmn:%s %s>\n", ind, tag, attrs)
-		if len(n.Results) > 0 || len(n.Props) > 0 || len(n.Headers) > 0 || n.Retries != "" {
+		if len(n.Results) > 0 || len(n.Props) > 0 || len(n.Headers) > 0 || n.Retries != "" || n.Timeout != "" {
 			fmt.Fprintf(b, "%s  <bpmn:extensionElements>\n", ind)
-			if n.Retries != "" {
-				fmt.Fprintf(b, "%s    <olive:taskDefinition type=\"service\" retries=\"%s\"/>\n", ind, n.Retries)
+			if n.Retries != "" || n.Timeout != "" {
+				attrs := ""
+				if n.Retries != "" {
+					attrs += fmt.Sprintf(" retries=\"%s\"", n.Retries)
+				}
+				if n.Timeout != "" {
+					attrs += fmt.Sprintf(" timeout=\"%s\"", n.Timeout)
+				}
+				fmt.Fprintf(b, "%s    <olive:taskDefinition type=\"service\"%s/>\n", ind, attrs)
 			}
 			if len(n.Headers) > 0 {
 				fmt.Fprintf(b, "%s    <olive:taskHeaders>\n", ind)
@@ -372,6 +380,16 @@ func IntGe(name string, k int64) *Cond {
 // DataObjConst reads a boolean field of a declared data object whose body makes it b.
 func DataObjConst(object, field string, b bool) *Cond {
 	return &Cond{Src: fmt.Sprintf("getDataObject('%s').%s == true", object, field), Eval: func(map[string]any) bool { return b }}
+}
+
+// NumConst is a constant comparison whose text is a valid boolean expression in both
+// languages ("1 < 2" / "2 < 1"); lang selects the language attribute ("" = expr, "xpath").
+func NumConst(b bool, lang string) *Cond {
+	src := "2 < 1"
+	if b {
+		src = "1 < 2"
+	}
+	return &Cond{Src: src, Lang: lang, Eval: func(map[string]any) bool { return b }}
 }
 
 // XPathConst is a constant condition in the XPath language.
